@@ -168,7 +168,7 @@ def run(ctx):
     if ctx.quick:
         plan = [(3, None, 2), (4, None, 1)]
     else:
-        plan = [(4, None, 2), (5, 1, 2), (3, None, 3)]
+        plan = [(4, None, 2), (5, 0, 2), (5, 1, 1), (3, None, 3)]
     items = []
     seen = set()
     for nmax, maxnd, k in plan:
